@@ -90,6 +90,7 @@ def run(rep, prog, tier):
     rep.rule('C02.4', 'signature-algorithm table and from_signer/__sig__ pairs', floor=8)
     rep.rule('C02.5', 'SignatureV4 writer layout and canonical_bytes', floor=2)
     rep.rule('C02.6', 'length prefixes of signature subpackets cover exactly what follows', floor=2)
+    rep.rule('C02.8', 'the text signed for a literal message is the literal packet body: unicode text read with exactly the codec it is written with (the C20.6 literal-text family under this property)', floor=2)
     rep.rule('C02.7', 'text-document canonicalisation on the cleartext signing path (RFC 4880 7.1; the C11.4 family under this property)', floor=4)
     rep.assume('PGPKey.hashdata / PGPUID.hashdata are non-empty; int_to_bytes(x, n) emits max(n, byte_length(x), 1) octets')
 
@@ -105,6 +106,15 @@ def run(rep, prog, tier):
     check_packet_copy(rep, prog)
     check_option_aliasing(rep, prog)
     check_cleartext_canonicalisation(rep, prog)
+    check_literal_text(rep, prog)
+
+
+def check_literal_text(rep, prog):
+    """sign(message) hashes message.message, which for a literal message is LiteralData.contents: if that view decodes the packet
+    body with another codec than the one the text was written with (e.g. 'utf-8-sig', which drops a leading byte order mark), the
+    octets signed are not the octets of the literal packet that is exported next to the signature."""
+    from rules import C20
+    C20.literal_text(_Proxy(rep, 'C02.8'), prog, prog.cls('pgpy.packet.packets', 'LiteralData'))
 
 
 class _Proxy(object):
